@@ -39,9 +39,9 @@ func (c10) Info() core.Info {
 
 func (c10) Budget(tier string) core.Budget {
 	if tier == "thorough" {
-		return core.Budget{Runs: 60000, WallCap: 20 * time.Minute}
+		return core.Budget{Runs: 2000000, WallCap: 20 * time.Minute}
 	}
-	return core.Budget{Runs: 640, WallCap: 45 * time.Second}
+	return core.Budget{Runs: 8000, WallCap: 45 * time.Second}
 }
 
 type failTpl struct {
